@@ -18,4 +18,22 @@ CHECKS = {
         assumptions=["single-threaded use of writer and reader (no concurrent writer while reading)",
                      "a Read/ReadMultipleOf may legitimately return fewer bytes than are readable; only ReadAll must return all"],
     ),
+    "C12": dict(
+        pkg=".", hdir="root", test="TestVerif_C12",
+        quick=dict(shards=16, checks=30000, timeout=300),
+        thorough=dict(shards=16, checks=500000, timeout=1800),
+        technique="property-based testing (rapid): integer reference model of the statement + metamorphic split-into-calls relation",
+        rule="rapid-generated option sets as the real callers build them (NewAbacoGroup: rescale/unwrap/bias/pulse sign/reset interval/"
+             "inversion; RoachDevice.samplePacket: 14 fraction bits, drop 2, bias on/off) x 16-bit sequences made of 1-6 segments "
+             "(constant, slow/fast ramps with wraps, steps near half a quantum and near the biased window edges, arbitrary jitter; "
+             "occasionally longer than the reset interval) x a split into calls; non-trivial = at least one wrap was removed AND the "
+             "sequence was split into >= 2 calls; distinct = distinct FNV-64 of the generated case",
+        level_text="Every output sample of the real unwrapper (obtained through the real Abaco/ROACH call sites) is checked against an "
+                   "integer reference of the statement: congruence modulo one quantum, step within half a quantum (+1 LSB) of the documented "
+                   "bias (0 or +-0.38 quantum), legitimate-reset discipline (run of N or N-1 samples away from home, never longer), and "
+                   "one-call == split-calls. Exploration over ~1e5 (quick) / ~3e6 (thorough) sequences.",
+        level_note="Bias is taken from the documentation (0.38 quantum, sign = pulse sign), not from the constructor arithmetic; the home "
+                   "offset is read from a fresh unwrapper fed one zero sample; both readings of 'after N samples' (N or N-1) are accepted.",
+        assumptions=["option sets are restricted to those real callers can construct", "1 LSB tolerance on the window absorbs floor vs. round of the bias"],
+    ),
 }
